@@ -59,6 +59,8 @@ def drv_two_reuse(text1, text2, snames, fields):
 
 
 NL = ["\n"]      # line ending used by build(); tasks may switch it to CRLF
+KEYHOLE = [False]   # tasks may switch this on: the (first) entry's citation key is a hole over the name alphabet too
+EKEYS = []          # the citation key terms of the document built last
 HW = [""]        # blanks / tabs between '@string' and '{' (tasks may switch it)
 
 
@@ -89,8 +91,14 @@ def build(eng, n_before, n_after, shapes, kl, second=None, pfx="t"):
     all_fields = []
     all_own = []
     entry_specs = [("key", "f", shapes)] + ([("kez", "g", second)] if second else [])
+    EKEYS[:] = []
     for ekey, fpre, shapes_ in entry_specs:
-      lit("@x{" + ekey)
+      if KEYHOLE[0] and not EKEYS:
+          lit("@x{")
+          EKEYS.append(hole())       # may be spelled exactly like a defined @string: it is still the key, not a reference
+      else:
+          lit("@x{" + ekey)
+          EKEYS.append(ekey)
       fields = []
       own = []
       for j, sh in enumerate(shapes_):
@@ -116,7 +124,7 @@ def build(eng, n_before, n_after, shapes, kl, second=None, pfx="t"):
     return mk(cs), snames, fields, own, order
 
 
-def verdict(lib, lib0, exp, snames, fields, own, order, E):
+def verdict(lib, lib0, exp, snames, fields, own, order, E, ekeys=()):
     conds = []
     blocks = lib.blocks
     if len(blocks) != len(order) or len(lib0.blocks) != len(order):
@@ -140,6 +148,9 @@ def verdict(lib, lib0, exp, snames, fields, own, order, E):
             ei = o[1]
             if not isinstance(e, M.Entry) or len(e.fields) != len(fields[ei]):
                 return [False]
+            if len(ekeys) > ei:
+                conds.append(E(e.key, ekeys[ei]))
+                conds.append(E(e.entry_type, "x"))
             resolved = []
             for f, (fkey, shape, name), hit, mine in zip(e.fields, fields[ei], exp[ei], own[ei]):
                 conds.append(E(f.key, fkey))
@@ -165,15 +176,16 @@ def first_of_lookup(lib, order, sidx):
     return b, b
 
 
-def native(text, snames, fields, own, order, reuse_after=None):
+def native(text, snames, fields, own, order, reuse_after=None, ekeys=()):
     import logging
     logging.disable(logging.CRITICAL)
     lib, lib0, exp = drv(text, snames, fields) if reuse_after is None else drv_two_reuse(reuse_after, text, snames, fields)
-    conds = verdict(lib, lib0, exp, snames, fields, own, order, lambda a, b: a == b)
+    conds = verdict(lib, lib0, exp, snames, fields, own, order, lambda a, b: a == b, ekeys)
     return all(bool(c) for c in conds), exp, [(f.key, f.value) for b in lib.blocks if isinstance(b, M.Entry) for f in b.fields]
 
 
-def task(n_before, n_after, shapes, kl, label, second=None, earlier=None, crlf=False, hw="", reuse=False):
+def task(n_before, n_after, shapes, kl, label, second=None, earlier=None, crlf=False, hw="", reuse=False, keyhole=False):
+    KEYHOLE[0] = keyhole
     NL[0] = "\r\n" if crlf else "\n"
     HW[0] = hw
     eng = Engine()
@@ -182,6 +194,7 @@ def task(n_before, n_after, shapes, kl, label, second=None, earlier=None, crlf=F
     if earlier is not None:
         text0 = build(eng, earlier[0], earlier[1], ("bare",), 1, None, pfx="p")[0]
     text, snames, fields, own, order = build(eng, n_before, n_after, shapes, kl, second)
+    ekeys = list(EKEYS)
     E = eng.I.models.eq_simple
     worlds = eng.run(drv, [text, snames, fields]) if text0 is None else eng.run(drv_two_reuse if reuse else drv_two, [text0, text, snames, fields])
 
@@ -194,7 +207,7 @@ def task(n_before, n_after, shapes, kl, label, second=None, earlier=None, crlf=F
                 logging.disable(logging.CRITICAL)
                 bibtexparser.parse_string(eng.model_str(m, text0))
             ok, exp, got = native(t, mv(snames), [[tuple(mv(list(f))) for f in ef] for ef in fields], mv(own), order,
-                                  eng.model_str(m, text0) if reuse else None)
+                                  eng.model_str(m, text0) if reuse else None, mv(ekeys))
         except Exception as e:  # noqa
             from pysym.harness import guard_repo_exception
             guard_repo_exception(e)
@@ -208,7 +221,7 @@ def task(n_before, n_after, shapes, kl, label, second=None, earlier=None, crlf=F
             rec.require(W, True, "no-exception", rp)
             continue
         lib, lib0, exp = W.result
-        conds = verdict(lib, lib0, exp, snames, fields, own, order, E)
+        conds = verdict(lib, lib0, exp, snames, fields, own, order, E, ekeys)
         rec.require(W, b_not(b_all(conds)), "resolution", rp)
         flat = [h for row in exp for h in row]
         flatf = [f for ef in fields for f in ef]
@@ -255,6 +268,11 @@ def main():
         for enb, ena in ((1, 0), (0, 1)):
             name = f"after-b{enb}a{ena}-then-b{nb}a{na}"
             chk.add_task(name, task, n_before=nb, n_after=na, shapes=("bare",), kl=1, label=name, earlier=(enb, ena))
+    # the citation key spelled like a @string name
+    for nb, na in ((1, 0), (0, 1), (2, 0)):
+        for shapes in (("bare",), ("braced",), ("bare", "bare")):
+            name = f"keyhole-b{nb}a{na}-" + "+".join(shapes)
+            chk.add_task(name, task, n_before=nb, n_after=na, shapes=shapes, kl=1, label=name, keyhole=True)
     # ... and with the very same middleware instances used for both documents
     for nb, na in ((1, 0), (0, 1), (0, 0), (2, 0)):
         for enb, ena in ((1, 0), (0, 1), (2, 0)):
